@@ -797,6 +797,33 @@ def _cutoff_ordering(chk, rule, rel, where, fn, facts):
             chk.ok(rule, inst, detail="%d consumer(s) all after the zeroing" % len(consumers))
 
 
+def _spin_sum_after(fn, g, rec, mode):
+    """A statement `x = x.sum(0)` / `x = np.sum(x, axis=0)` on the zeroed array, active in `mode`
+    and reachable after the zeroing site -> that statement, else None."""
+    site = g.node_of(rec["site"])
+    if site is None:
+        return None
+    reach = g.reachable(site.id)
+    for st, v, kind in assigns_to(fn, rec["root"]):
+        if kind != "assign" or v is None:
+            continue
+        inner, summed = _strip_sum(v)
+        if not summed or pf.base_name(inner) != rec["root"]:
+            continue
+        axis = None
+        if isinstance(v, ast.Call):
+            cand = list(v.args[1:] if pf.call_name(v) in ("np.sum", "numpy.sum") else v.args) + \
+                [k.value for k in v.keywords if k.arg == "axis"]
+            axis = cand[0] if cand else None
+        if not (isinstance(axis, ast.Constant) and axis.value == 0):
+            continue
+        modes, _ = split_conditions(st)
+        n = g.node_of(st)
+        if mode in modes and n is not None and n.id in reach and n.id != site.id:
+            return st
+    return None
+
+
 def check_cutoff_pairing(chk, prog, targets, rule="cutoff-pair"):
     """Rule shared by C04 (rule 4) and C08 (rule 2); targets: ((relpath, class name), ...)."""
     for rel, cname in targets:
@@ -825,6 +852,7 @@ def check_cutoff_pairing(chk, prog, targets, rule="cutoff-pair"):
                           instance="%s all modes" % where)
             continue
         _cutoff_ordering(chk, rule, rel, where, fn, facts)
+        gfn = cfgm.CFG(fn)
         for mode in MODES:
             vs = [r for r in facts["stores"] if r["role"] == "value" and mode in r["modes"]]
             ds = [r for r in facts["stores"] if r["role"] == "derivative" and mode in r["modes"]]
@@ -862,6 +890,16 @@ def check_cutoff_pairing(chk, prog, targets, rule="cutoff-pair"):
                                  "per spin channel (`%s`); for non-negative densities the latter contains the "
                                  "former, so every zeroed value has a zeroed derivative, but a channel below "
                                  "the cutoff loses its derivative while the value is kept" % (mode, mv.text, md.text))
+            # spin granularity: where the value is still resolved per spin channel when it is zeroed (it is
+            # summed over the spin axis only afterwards, in this mode), the density compared with the cutoff
+            # must be the channel's own density
+            for v in vs:
+                later = _spin_sum_after(fn, gfn, v, mode)
+                if later is not None and v["mask"].summed:
+                    problems.append((v, "the value `%s` is per spin channel when it is zeroed (it is summed over "
+                                        "spin only later, by `%s`), but the mask `%s` compares the spin-summed "
+                                        "density with the cutoff: a channel below the cutoff whose partner is above "
+                                        "it keeps its contribution" % (v["root"], pf.src(later), v["mask"].text)))
             if problems:
                 d, why = problems[0]
                 chk.violation(rule, rel, where, "mode %s: %s" % (mode, pf.src(d["stmt"])), d["stmt"].lineno,
@@ -969,6 +1007,110 @@ def c_grad_pairing(tu, fname):
 
     seen = set()
 
+    # feature loops: for-loops that sweep the feature index inside the control-point loop; they contain
+    # neither a squared-exponential helper call nor an exp(); their induction variable only selects the
+    # feature and is dropped from element addresses
+    feat_vars = set()
+    for n_ in cfacts.walk(body):
+        if n_.get("kind") == "ForStmt":
+            has_se = False
+            for x_ in cfacts.walk(n_):
+                if x_.get("kind") == "CallExpr":
+                    nm_ = (cfacts.strip(cfacts.kids(x_)[0]).get("referencedDecl") or {}).get("name")
+                    hk_ = helper_kind(nm_)
+                    if nm_ in ("exp", "expf") or (hk_ and hk_[0] == "se"):
+                        has_se = True
+            if has_se:
+                continue
+            init = cfacts.kids(n_)[0] if cfacts.kids(n_) else None
+            if init is not None:
+                for d_ in cfacts.walk(init):
+                    if d_.get("kind") == "VarDecl":
+                        feat_vars.add(d_.get("name"))
+                    if d_.get("kind") == "BinaryOperator" and d_.get("opcode") == "=":
+                        l_ = cfacts.strip(cfacts.kids(d_)[0])
+                        if l_.get("kind") == "DeclRefExpr":
+                            feat_vars.add(l_["referencedDecl"]["name"])
+
+    def flat_plus(e):
+        e = cfacts.strip(e)
+        if e.get("kind") == "BinaryOperator" and e.get("opcode") == "+":
+            l, r = cfacts.kids(e)
+            return flat_plus(l) + flat_plus(r)
+        return [e]
+
+    def elem_norm(e):
+        """address of the array element x[idx] with the feature index removed -> (param, offsets), uses_feat"""
+        e = cfacts.strip(e)
+        if e.get("kind") != "ArraySubscriptExpr":
+            return None, False
+        base, idx = cfacts.kids(e)
+        pn = ptr_norm(base)
+        if pn is None:
+            return None, False
+        terms, uses = [], False
+        for t_ in flat_plus(idx):
+            txt = _ws(tu.text_of(t_))
+            if cfacts.strip(t_).get("kind") == "DeclRefExpr" and txt in feat_vars:
+                uses = True
+                continue
+            terms.append(txt)
+        return (pn[0], tuple(sorted(pn[1] + tuple(terms)))), uses
+
+    elems = {}   # scalar local -> element address it was loaded from (inside a feature loop)
+    inline = []  # (g, x, c, fac, text, line, fac text)
+
+    def products(e):
+        """sum-of-products reading of a gradient increment: list of (factor syms, differences)"""
+        e = cfacts.strip(e)
+        k_ = e.get("kind")
+        if k_ == "BinaryOperator" and e.get("opcode") in ("+", "-"):
+            l, r = cfacts.kids(e)
+            a, b = operand_elem(l), operand_elem(r)
+            if a is not None and b is not None and e.get("opcode") == "-":
+                return [([], [(a, b)])]
+            return products(l) + products(r)
+        if k_ == "BinaryOperator" and e.get("opcode") == "*":
+            l, r = cfacts.kids(e)
+            return [(fa + fb, da + db) for fa, da in products(l) for fb, db in products(r)]
+        if k_ == "UnaryOperator" and e.get("opcode") == "-":
+            return products(cfacts.kids(e)[0])
+        if k_ == "DeclRefExpr":
+            v = env.get(e["referencedDecl"]["id"])
+            if v and v[0] == "fac":
+                return [([(v, _ws(tu.text_of(e)))], [])]
+        return [([], [])]
+
+    def operand_elem(e):
+        e = cfacts.strip(e)
+        if e.get("kind") == "DeclRefExpr":
+            return elems.get(e["referencedDecl"]["id"])
+        if e.get("kind") == "ArraySubscriptExpr":
+            pn, uses = elem_norm(e)
+            return pn if uses else None
+        return None
+
+    def inline_grad(n, lhs, rhs):
+        g, uses = elem_norm(lhs)
+        if g is None or not uses:
+            return False
+        xbases = {t[0][0] for v in list(env.values()) if v and v[0] == "fac" for t in v[1]}
+        cbases = {t[1][0] for v in list(env.values()) if v and v[0] == "fac" for t in v[1]}
+        hit = False
+        for facs, diffs in products(rhs):
+            if len(facs) != 1 or len(diffs) != 1:
+                continue
+            (f, ftext), (a, b) = facs[0], diffs[0]
+            if a[0] in xbases and b[0] in cbases:
+                x, c = a, b
+            elif b[0] in xbases and a[0] in cbases:
+                x, c = b, a
+            else:
+                continue
+            hit = True
+            inline.append((g, x, c, f, _ws(tu.text_of(n)), tu.line_of(n), ftext))
+        return hit
+
     def stmt(n):
         k = n.get("kind")
         off = (k, n.get("range", {}).get("begin", {}).get("offset"))
@@ -977,6 +1119,9 @@ def c_grad_pairing(tu, fname):
                 ks = cfacts.kids(d)
                 if d.get("kind") == "VarDecl" and ks and not _is_ptr(d.get("type")):
                     env[d["id"]] = sym(ks[0])
+                    pn_, uses_ = elem_norm(ks[0])
+                    if pn_ is not None and uses_:
+                        elems[d["id"]] = pn_
             return
         if k in ("BinaryOperator", "CompoundAssignOperator") and n.get("opcode", "") in ("=", "+=", "-=", "*="):
             l, r = cfacts.kids(n)
@@ -993,6 +1138,9 @@ def c_grad_pairing(tu, fname):
                     v = ("fac", t) if fs else None
                 env[rid] = v
             elif ls.get("kind") == "ArraySubscriptExpr":
+                if off not in seen and n.get("opcode") in ("+=", "-=") and inline_grad(n, ls, r):
+                    seen.add(off)
+                    return
                 pn = ptr_norm(cfacts.kids(ls)[0])
                 v = sym(r)
                 if pn is not None and v and v[0] == "fac" and off not in seen:
@@ -1022,7 +1170,7 @@ def c_grad_pairing(tu, fname):
     stmt(body)
     res = {"calls": [], "missing": [], "n_terms": 0}
     covered = {}
-    for g, x, c, f, text, line, ftext in calls:
+    for g, x, c, f, text, line, ftext in calls + inline:
         if f is None or f[0] != "fac" or g is None or x is None or c is None:
             raise AnalysisError("%s: gradient call `%s` not understood (factor or pointer arguments)" % (fname, text))
         why = None
